@@ -1,35 +1,82 @@
 from ..selftest import M
 
 L = "msmart/lan.py"
+# V3-specific anchors (the V2 callback repeats some lines since the F6 fix)
+GUARD = """                # Ensure entire packet is received
+                if len(buf) < total_size:
+                    _LOGGER.warning(
+                        "Peer %s: Partial packet received. Buffer: %s", self.peer, buf.hex())"""
+HDR = """                if len(buf) < 6:
+                    _LOGGER.warning(
+                        "Peer %s: Buffer too short. Buffer: %s", self.peer, buf.hex())"""
 EXT = """                packet, self._buffer = buf[:total_size], bytearray(
-                    buf[total_size:])"""
+                    buf[total_size:])
+
+                # Queue the received packet
+                self._queue.put_nowait(packet.tobytes())
+
+    def _decode_encrypted_response"""
+ENTRY = """        _LOGGER.debug("Received data from %s: %s", self.peer, data.hex())
+
+        # Add incoming data to buffer
+        self._buffer += data
+
+        # Process buffer until empty
+        while len(self._buffer) > 0:
+            # Find start of packet
+            start = self._buffer.find(b"\\x83\\x70")"""
+TRIM = """                        "Peer %s: Ignoring data before packet: %s", self.peer, buf[:start].hex())
+
+                # Trim any leading data
+                buf = buf[start:]
+"""
+
+
+def g(new_first_line):
+    return GUARD.replace("                if len(buf) < total_size:", new_first_line)
+
+
+def e(new):
+    return EXT.replace("""                packet, self._buffer = buf[:total_size], bytearray(
+                    buf[total_size:])
+
+                # Queue the received packet
+                self._queue.put_nowait(packet.tobytes())""", new)
+
+
 CORPUS = [
     M("plus-6", L, 'total_size = int.from_bytes(buf[2:4], "big") + 8', 'total_size = int.from_bytes(buf[2:4], "big") + 6'),
-    M("lt-to-le", L, "                if len(buf) < total_size:", "                if len(buf) <= total_size:"),
-    M("guard-loosened", L, "                if len(buf) < total_size:", "                if len(buf) < total_size - 2:"),
-    M("buffer-replaced", L, "        self._buffer += data\n", "        self._buffer = bytearray(data)\n"),
-    M("remainder-dropped", L, EXT, "                packet, self._buffer = buf[:total_size], bytearray(0)"),
-    M("while-to-if", L, "        while len(self._buffer) > 0:", "        if len(self._buffer) > 0:"),
+    M("lt-to-le", L, GUARD, g("                if len(buf) <= total_size:")),
+    M("guard-loosened", L, GUARD, g("                if len(buf) < total_size - 2:")),
+    M("buffer-replaced", L, ENTRY, ENTRY.replace("self._buffer += data", "self._buffer = bytearray(data)")),
+    M("remainder-dropped", L, EXT, e("                packet, self._buffer = buf[:total_size], bytearray(0)\n\n                # Queue the received packet\n                self._queue.put_nowait(packet.tobytes())")),
+    M("while-to-if", L, ENTRY, ENTRY.replace("        while len(self._buffer) > 0:", "        if len(self._buffer) > 0:")),
     M("little-endian-size", L, 'total_size = int.from_bytes(buf[2:4], "big") + 8', 'total_size = int.from_bytes(buf[2:4], "little") + 8'),
-    M("double-put", L, "                self._queue.put_nowait(packet.tobytes())", "                self._queue.put_nowait(packet.tobytes())\n                self._queue.put_nowait(packet.tobytes())"),
+    M("double-put", L, EXT, e("                packet, self._buffer = buf[:total_size], bytearray(\n                    buf[total_size:])\n\n                # Queue the received packet\n                self._queue.put_nowait(packet.tobytes())\n                self._queue.put_nowait(packet.tobytes())")),
     M("partial-clears-buffer", L, """                        "Peer %s: Partial packet received. Buffer: %s", self.peer, buf.hex())
                     return""", """                        "Peer %s: Partial packet received. Buffer: %s", self.peer, buf.hex())
                     self._buffer = bytearray(0)
                     return"""),
     M("size-field-offset", L, 'total_size = int.from_bytes(buf[2:4], "big") + 8', 'total_size = int.from_bytes(buf[3:5], "big") + 8'),
-    M("kept-off-by-one", L, EXT, "                packet, self._buffer = buf[:total_size], bytearray(\n                    buf[total_size + 1:])"),
-    M("no-trim", L, "                buf = buf[start:]\n", "                pass\n"),
+    M("kept-off-by-one", L, EXT, e("                packet, self._buffer = buf[:total_size], bytearray(\n                    buf[total_size + 1:])\n\n                # Queue the received packet\n                self._queue.put_nowait(packet.tobytes())")),
+    M("no-trim", L, TRIM, TRIM.replace("                buf = buf[start:]\n", "                pass\n")),
     M("marker-wrong", L, '            start = self._buffer.find(b"\\x83\\x70")', '            start = self._buffer.find(b"\\x83\\x71")'),
     M("encoder-size-drift", L, "        length = len(data) + pad + 32", "        length = len(data) + pad + 34"),
     M("handshake-size-drift", L, "        header = self._build_header(len(data), bytes(\n            [self.PacketType.HANDSHAKE_REQUEST]))", "        header = self._build_header(len(data) + 2, bytes(\n            [self.PacketType.HANDSHAKE_REQUEST]))"),
-    M("loop-stops-early", L, "        while len(self._buffer) > 0:", "        while len(self._buffer) > 64:"),
-    M("header-guard-too-big", L, "                if len(buf) < 6:", "                if len(buf) < 16:"),
+    M("loop-stops-early", L, ENTRY, ENTRY.replace("        while len(self._buffer) > 0:", "        while len(self._buffer) > 64:")),
+    M("header-guard-too-big", L, HDR, HDR.replace("if len(buf) < 6:", "if len(buf) < 16:")),
     M("lifo-queue", L, "        self._queue = asyncio.Queue()", "        self._queue = asyncio.LifoQueue()"),
+    M("stale-watermark", L, ENTRY, ENTRY.replace("        # Process buffer until empty\n", "        if len(self._buffer) < getattr(self, \"_needed\", 0):\n            return\n\n        # Process buffer until empty\n")),
+    M("no-marker-clears-buffer", L, """                    "Peer %s: No start of packet found. Buffer: %s", self.peer, self._buffer.hex())
+                return""", """                    "Peer %s: No start of packet found. Buffer: %s", self.peer, self._buffer.hex())
+                self._buffer.clear()
+                return"""),
     # neutral
-    M("n-not-ge", L, "                if len(buf) < total_size:", "                if not len(buf) >= total_size:", "S"),
-    M("n-header-guard-4", L, "                if len(buf) < 6:", "                if len(buf) < 4:", "S"),
-    M("n-header-guard-8", L, "                if len(buf) < 6:", "                if len(buf) < 8:", "S"),
-    M("n-while-truthy", L, "        while len(self._buffer) > 0:", "        while self._buffer:", "S"),
-    M("n-two-statements", L, EXT, "                packet = buf[:total_size]\n                self._buffer = bytearray(buf[total_size:])", "S"),
+    M("n-not-ge", L, GUARD, g("                if not len(buf) >= total_size:"), "S"),
+    M("n-header-guard-4", L, HDR, HDR.replace("if len(buf) < 6:", "if len(buf) < 4:"), "S"),
+    M("n-header-guard-8", L, HDR, HDR.replace("if len(buf) < 6:", "if len(buf) < 8:"), "S"),
+    M("n-while-truthy", L, ENTRY, ENTRY.replace("        while len(self._buffer) > 0:", "        while self._buffer:"), "S"),
+    M("n-two-statements", L, EXT, e("                packet = buf[:total_size]\n                self._buffer = bytearray(buf[total_size:])\n\n                # Queue the received packet\n                self._queue.put_nowait(packet.tobytes())"), "S"),
     M("n-rename", L, 'total_size = int.from_bytes(buf[2:4], "big") + 8', 'size = int.from_bytes(buf[2:4], "big")\n                total_size = size + 8', "S"),
+    M("n-empty-segment-return", L, ENTRY, ENTRY.replace("        # Add incoming data to buffer\n", "        if not data:\n            return\n\n        # Add incoming data to buffer\n"), "S"),
 ]
